@@ -175,10 +175,12 @@ def handle (cmd : String) (fields : List String) : Option String :=
     | none => some ("ERR\t" ++ enc "read: bad request")
     | some su =>
       let fuel := 4 * su.total + 64
-      let p := drainEv depthBudget su.fs fuel su.st
-      let evs := p.1.map (fun e => enc (showEv e))
-      let tail := enc s!"LC {linecount p.2} {(sourceLines p.2).length}"
-      some ("OK\t" ++ "\t".intercalate (evs ++ [tail]))
+      match drainEv depthBudget su.fs fuel su.st with
+      | none => some ("ERR\t" ++ enc "read: out of fuel")
+      | some p =>
+        let evs := p.1.map (fun e => enc (showEv e))
+        let tail := enc s!"LC {linecount p.2} {(sourceLines p.2).length}"
+        some ("OK\t" ++ "\t".intercalate (evs ++ [tail]))
   | "readwalk" =>
     match fields with
     | script :: rest =>
